@@ -31,6 +31,7 @@ def API(br):
 
 
 class _Schema(Contract):
+    history_ok = False         # client programs with their own probes: an earlier run of the program is not a pre-state
     assigns = GUARD_STATE      # client programs enter and leave guarded regions; V.state_restored pins the final state
     modules = MODS
     probe = True
